@@ -944,6 +944,19 @@ class Converter:
                 return self._translate_expr(node.operand)
         opname = primop_map[op]
         operand = self._translate_expr(node.operand)
+        if op in (ast.USub, ast.UAdd) and self._is_castable(operand.name):
+            # The operand is a Python constant (a global or an attribute parameter): its
+            # negation is one too, and is promoted to the type of the other operand
+            # of an enclosing operator like the constant itself.
+            if op == ast.UAdd:
+                return operand
+            result = self._emit1(
+                [self._generate_unique_name("tmp")],
+                values.Op(self.default_opset, opname),
+                [operand],
+            )
+            self._castable.add(result.name)
+            return result
         return values.Op(self.default_opset, opname), [operand], []
 
     def _translate_compare_expr(self, node):
